@@ -41,7 +41,9 @@ LEVEL = 'exploration'
 RULE = ('histories: a case = one seeded sequence of 5-40 API call descriptors (tatsu.compile+parse, tatsu.parse, '
         'compile with asmodel/basetype/typedefs/constructors/semantics/ignorecase/whitespace/name/start, model.parse with '
         'settings or a ParserConfig, failing parses, to_python_sourcecode->exec->parse, to_python_model->exec->compile, '
-        'deferred use of an earlier obtained model/parser object, semantics objects shared/dropped/re-created) over 6 '
+        'deferred use of an earlier obtained model/parser object, object sessions = one generated-parser instance or compiled '
+        'model reused for a run of calls that pass nothing or exactly one of asmodel/semantics/start/a setting/a ParserConfig, '
+        'semantics objects shared/dropped/re-created) over 6 '
         'grammar texts, run in ONE fresh worker process, every step compared with the same call evaluated alone in a '
         'fresh interpreter; distinct by the sequence of (descriptor, reuse, phase) and, separately, by ordered pair of '
         'same-grammar descriptors (earlier, later) that met in one process.  threads: a case = (grammar template, '
@@ -62,7 +64,11 @@ FLOORS = {
     'quick': {'idreuse_attempts': 300, 'histories': 200, 'steps_compared': 3400, 'steps_agree': 2800, 'deferred_or_shared_object_uses': 600,
               'deferred_uses': 150, 'parses_state_monitored': 2400, 'fresh_evaluations': 200,
               'fresh_determinism_checked': 15, 'good_parse_after_failed_parse_same_object': 200,
-              'via:api': 300, 'via:gen': 300, 'via:compile': 2000, 'drops': 100,
+              'via:api': 200, 'via:gen': 300, 'via:compile': 2000, 'drops': 100,
+              'bare_call_after_configured_call_same_object': 500, 'bare_call_after_configured_call_same_object:gen': 300,
+              'bare_call_after_configured_call_same_object:typed-rules': 150,
+              'configured_call_on_reusable_object:asmodel': 250, 'configured_call_on_reusable_object:semantics': 350,
+              'configured_call_on_reusable_object:config': 500,
               'thread_runs': 32, 'thread_results_compared': 3000, 'post_thread_sequential_compared': 2500,
               'yields_injected': 100000, 'thread_switches_observed': 100000,
               'distinct_interleavings': 20, 'distinct_nontrivial': 3000},
@@ -70,7 +76,11 @@ FLOORS = {
                  'deferred_or_shared_object_uses': 11000, 'deferred_uses': 2800, 'parses_state_monitored': 40000,
                  'fresh_evaluations': 700, 'fresh_determinism_checked': 60,
                  'good_parse_after_failed_parse_same_object': 4000,
-                 'via:api': 6000, 'via:gen': 6000, 'via:compile': 38000, 'drops': 3000,
+                 'via:api': 3500, 'via:gen': 6000, 'via:compile': 38000, 'drops': 3000,
+                 'bare_call_after_configured_call_same_object': 8000, 'bare_call_after_configured_call_same_object:gen': 5000,
+                 'bare_call_after_configured_call_same_object:typed-rules': 2500,
+                 'configured_call_on_reusable_object:asmodel': 4000, 'configured_call_on_reusable_object:semantics': 5500,
+                 'configured_call_on_reusable_object:config': 8000,
                  'thread_runs': 700, 'thread_results_compared': 60000, 'post_thread_sequential_compared': 55000,
                  'yields_injected': 2500000, 'thread_switches_observed': 2500000,
                  'distinct_interleavings': 400, 'distinct_nontrivial': 30000},
@@ -255,8 +265,8 @@ def sibling_closure(pool):
     for ds in byfam.values():
         for p in ds:
             for v in ds:
-                if p is v or not same_cache_entry(p, v):
-                    continue
+                if p is v or not same_cache_entry(p, v) or v.get('tag') == 'one':
+                    continue        # (siblings of the one-argument object calls are evaluated on demand)
                 for v2, _sig, _txt, _lvl in substitutions(p, v, compile_level_only=True):
                     k = C.desc_key(v2)
                     if k not in have:
@@ -322,7 +332,7 @@ def gen_history(rng, pool, byfam):
     focus = rng.sample(fams, rng.choice((1, 1, 2, 2, 3)))
     if 'typed' in focus and rng.random() < 0.5 and 'typed2' not in focus:
         focus.append('typed2')          # the two grammars that share class names
-    n = rng.randint(5, 40)
+    n = rng.randint(5, 32)
     steps = []
     for _ in range(n):
         d = rng.choice(byfam[rng.choice(focus)]) if rng.random() < 0.88 else rng.choice(pool)
@@ -340,6 +350,31 @@ def gen_history(rng, pool, byfam):
         if rng.random() < 0.06:
             st['drop'] = True
         steps.append(st)
+    # object sessions: ONE generated-parser instance / compiled model used for a run of calls whose argument sets
+    # vary -- a call passing exactly one thing (asmodel, semantics, start, a setting, a ParserConfig), then the bare
+    # call, ... -- other calls of the history fall in between
+    for _ in range(rng.choice((0, 1, 1, 2))):
+        fam = rng.choice(focus)
+        via = rng.choice(('gen', 'gen', 'compile'))
+        group = [d for d in byfam[fam] if d['via'] == via and not d.get('c') and not d.get('k')
+                 and d.get('probe', 'parse') == 'parse']
+        bare = [d for d in group if C.is_bare(d)]
+        conf = [d for d in group if not C.is_bare(d)]
+        if not bare or not conf:
+            continue
+        session = []
+        for _ in range(rng.randint(2, 5)):
+            session.append({'desc': rng.choice(conf), 'reuse': 'obj', 'session': True})
+            if rng.random() < 0.25:
+                session.append({'desc': rng.choice(conf), 'reuse': 'obj', 'session': True})
+            session.append({'desc': rng.choice(bare), 'reuse': 'obj', 'session': True})
+        if rng.random() < 0.5:
+            at = rng.randrange(len(steps) + 1)
+            steps[at:at] = session
+        else:
+            pos = sorted(rng.randrange(len(steps) + 1) for _ in session)
+            for off, (at, st) in enumerate(zip(pos, session)):
+                steps.insert(at + off, st)
     # deferred use: obtain now, use the same object later (other calls in between)
     for _ in range(rng.randint(0, 3)):
         d = rng.choice(byfam[rng.choice(focus)])
@@ -349,7 +384,7 @@ def gen_history(rng, pool, byfam):
         j = rng.randrange(i, len(steps)) + 1
         steps.insert(j, {'desc': d, 'reuse': 'obj', 'deferred': True})
         steps.insert(i, {'desc': d, 'phase': 'obtain'})
-    return steps[:44]
+    return steps[:48]
 
 
 def step_sig(st):
@@ -725,8 +760,24 @@ def check_history(acc, steps, fresh, state, origin):
         acc.count('state_alterations')
         state_violation(acc, ev, origin)
     failed_on = set()
+    configured = {}     # object key -> the object now held was given arguments by an earlier call
     for k, st in enumerate(steps):
         d = st['desc']
+        if st.get('drop'):
+            configured.clear()
+        if d['via'] in ('gen', 'compile', 'genmodel'):
+            objk0 = C.obtain_key(d)
+            if st.get('reuse') != 'obj' or objk0 not in configured:
+                configured[objk0] = False       # obtained anew by this step
+            elif results[k] is not None and C.is_bare(d) and configured[objk0]:
+                acc.count('bare_call_after_configured_call_same_object')
+                acc.count('bare_call_after_configured_call_same_object:' + d['via'])
+                if d['fam'] in ('typed', 'typed2'):
+                    acc.count('bare_call_after_configured_call_same_object:typed-rules')
+            if results[k] is not None and d.get('probe', 'parse') == 'parse' and d.get('p'):
+                configured[objk0] = True
+                for o in d['p']:
+                    acc.count('configured_call_on_reusable_object:' + o)
         if results[k] is None:
             acc.count('obtain_only_steps')
             continue
